@@ -131,6 +131,18 @@ class VConst(V):
         return f"Const({self.obj!r})"
 
 
+class VOpt(V):
+    """value that is None when `isnone` holds and `val` otherwise (arises only from merging
+    the two arms of a conditional; operations other than tests/equality split it again)"""
+
+    def __init__(self, isnone, val):
+        self.isnone = isnone
+        self.val = val
+
+    def __repr__(self):
+        return f"Opt({self.isnone}?None:{self.val!r})"
+
+
 class VExc(V):
     def __init__(self, cls, args=()):
         self.cls = cls
@@ -237,18 +249,50 @@ def name_term(ctx, t, p="t"):
 
 # ---------------------------------------------------------------- slicing
 
-def norm_index(i, n):
-    """Python slice index normalisation: negative -> +n, clamp to [0, n]"""
+def norm_index(i, n, ctx=None):
+    """Python slice index normalisation: negative -> +n, clamp to [0, n].  When the path
+    context already proves 0 <= i <= n the index is used as it is (keeps views canonical)."""
     ci, cn = is_conc_int(i), is_conc_int(n)
     if ci is not None and cn is not None:
         j = ci + cn if ci < 0 else ci
         return iv(max(0, min(j, cn)))
+    if ci is not None and ci == 0:
+        return iv(0)
+    sol = getattr(ctx, "sol", None)
+    if sol is not None:
+        if sol.check(z3.Not(z3.And(0 <= i, i <= n)), timeout_ms=500) == z3.unsat:
+            return i
     if ci is not None and ci >= 0:
-        if ci == 0:
-            return iv(0)
         return z3.If(i <= n, i, n)
     j = z3.If(i < 0, i + n, i)
     return z3.If(j < 0, 0, z3.If(j > n, n, j))
+
+
+def intern_view(ctx, v: VStr):
+    """View interning: if the path context proves that a new view has the same bounds as an
+    existing view over the same array, the existing view is returned, so that library terms
+    (find results, ...) computed for one are shared with the other (keeps code and
+    specification syntactically aligned; purely an optimisation, sound by the solver's proof)."""
+    if v.conc is not None:
+        return v
+    views = getattr(ctx, "views", None)
+    if views is None:
+        views = ctx.views = {}
+    lst = views.setdefault(v.a.get_id(), [])
+    lid, hid = v.lo.get_id(), v.hi.get_id()
+    for w in lst:
+        if w.lo.get_id() == lid and w.hi.get_id() == hid:
+            return w
+    sol = getattr(ctx, "sol", None)
+    if sol is not None:
+        cands = [w for w in lst if w.lo.get_id() == lid or w.hi.get_id() == hid]
+        cands += [w for w in reversed(lst) if not any(w is x for x in cands)]
+        for w in cands[:10]:
+            if sol.check(z3.Not(z3.And(w.lo == v.lo, w.hi == v.hi)), timeout_ms=400) == z3.unsat:
+                sol.nintern = getattr(sol, "nintern", 0) + 1
+                return w
+    lst.append(v)
+    return v
 
 
 def slice_(ctx, s: VStr, lo=None, hi=None):
@@ -258,14 +302,16 @@ def slice_(ctx, s: VStr, lo=None, hi=None):
         ch = None if hi is None else is_conc_int(hi)
         if (lo is None or cl is not None) and (hi is None or ch is not None):
             return lit(s.conc[cl:ch], s.kind)
-    a = iv(0) if lo is None else name_term(ctx, norm_index(lo, n), "sl")
+    a = iv(0) if lo is None else name_term(ctx, norm_index(lo, n, ctx), "sl")
     if hi is None:
         b = n
     else:
-        b = name_term(ctx, norm_index(hi, n), "sh")
-        if lo is not None:
-            b = name_term(ctx, z3.If(b < a, a, b), "sh")
-    return VStr(s.a, name_term(ctx, s.lo + a, "lo"), name_term(ctx, s.lo + b, "hi"), kind=s.kind)
+        b = name_term(ctx, norm_index(hi, n, ctx), "sh")
+        if lo is not None and not (is_conc_int(a) == 0):
+            sol = getattr(ctx, "sol", None)
+            if not (sol is not None and sol.check(b < a, timeout_ms=500) == z3.unsat):
+                b = name_term(ctx, z3.If(b < a, a, b), "sh")
+    return intern_view(ctx, VStr(s.a, name_term(ctx, s.lo + a, "lo"), name_term(ctx, s.lo + b, "hi"), kind=s.kind))
 
 
 def char_at(ctx, s: VStr, i):
@@ -338,8 +384,8 @@ def find(ctx: Ctx, s: VStr, needle, start=None, end=None, reverse=False):
     if s.conc is not None and z3.is_int_value(c) and start is None and end is None:
         ch = chr(c.as_long()) if s.kind == "str" else bytes([c.as_long()])
         return iv(s.conc.rfind(ch) if reverse else s.conc.find(ch))
-    a0 = iv(0) if start is None else name_term(ctx, norm_index(start, n), "fs")
-    b0 = n if end is None else name_term(ctx, norm_index(end, n), "fe")
+    a0 = iv(0) if start is None else name_term(ctx, norm_index(start, n, ctx), "fs")
+    b0 = n if end is None else name_term(ctx, norm_index(end, n, ctx), "fe")
     key = ("find", reverse, s.a.get_id(), z3.simplify(s.lo).get_id(), z3.simplify(s.hi).get_id(), c.get_id(),
            z3.simplify(a0).get_id(), z3.simplify(b0).get_id())
     memo = getattr(ctx, "memo", None)
@@ -363,7 +409,7 @@ def first_of(ctx: Ctx, s: VStr, codes, start=None, negate=False):
     """spec primitive: smallest r in [start, len] with s[r] in `codes` (r == len if none);
     with negate: smallest r with s[r] NOT in codes (used by lstrip)."""
     n = s.len()
-    a0 = iv(0) if start is None else name_term(ctx, norm_index(start, n), "fs")
+    a0 = iv(0) if start is None else name_term(ctx, norm_index(start, n, ctx), "fs")
     codes = tuple(sorted(set(codes)))
     key = ("first_of", negate, s.a.get_id(), z3.simplify(s.lo).get_id(), z3.simplify(s.hi).get_id(), codes,
            z3.simplify(a0).get_id())
@@ -505,6 +551,15 @@ def remove_char(ctx: Ctx, s: VStr, c: int):
     i = find(ctx, s, c)
     eq = str_eq(ctx, r, s)
     ctx.add(z3.Implies(i == -1, eq))
+    # the result is a function of the *content* of s
+    apps = getattr(ctx, "fn_apps", None)
+    if apps is None:
+        apps = ctx.fn_apps = []
+    for (nm, s2, r2) in apps:
+        if nm == ("remove", c):
+            ctx.add(z3.Implies(str_eq(ctx, s, s2), str_eq(ctx, r, r2)))
+    apps.append((("remove", c), s, r))
+    r.tags["removed_from"] = (s, c, i)
     memo[key] = r
     return r
 
